@@ -331,7 +331,7 @@ META["C19"] = {
              "problem; non-trivial = at least one iteration ran."),
     "COMPONENTS": {"real": ["lstsq_constrained_gauss_newton", "taylor_point_maximum_a_posteriori", "linalg.lstsq_svd"],
                    "stub": [], "seam": ["while_loop= constructor argument (loop observed per iteration)"]},
-    "PROBES": ["budget_exhausted", "optimality_checked", "affine_conditional_mean_checked", "taylor_point_checked", "singular_weight"],
+    "PROBES": ["budget_exhausted", "optimality_checked", "affine_conditional_mean_checked", "taylor_point_checked", "singular_weight", "mean_at_origin"],
     "ASSUMPTIONS": ["numpy pinv / lstsq as the independent linear algebra of the oracle"],
     "LEVEL_TEXT": "Seeded exploration of problems and iteration budgets with the iteration loop owned by the simulator.",
     "LEVEL_NOTE": "Trusted: numpy linear algebra. The exact-filter-update clause is checked through the MAP Taylor point only.",
